@@ -51,7 +51,23 @@ def run(ctx):
     # deep nesting
     for d in (10, 64):
         cases.append(mkcase('N%d' % d, lib.new_cfg(), b'[' * d + b']' * d)); cases.append(mkcase('M%d' % d, lib.new_cfg(), b'{"a":' * d + b'1' + b'}' * d))
-        cases.append(mkcase('U%d' % d, lib.new_cfg(), b'[' * d))
+        cases.append(mkcase('O%d' % d, lib.new_cfg(), b'[' * d))
+    # arithmetic on boundary numbers, every ordered pair, as literals and as data: i64::MIN % -1, u64::MAX + 1, 0 / 0, ...
+    BN = ['0', '-0.0', '1', '-1', '2', '3', '9223372036854775807', '-9223372036854775808', '9223372036854775808', '18446744073709551615',
+          '18446744073709551616', '-9223372036854775809', '4503599627370496.5', '9007199254740993', '1e308', '-1e308', '5e-324', '0.5', '-2.5']
+    BIN = ['+', '-', '*', '/', '%', 'mod', '=', '<', 'max', 'min'] if tier == 'quick' else ['+', '-', '*', '/', '%', 'mod', '=', '!=', '<', '<=', '>', '>=', 'max', 'min', 'pow', '"+"', '"-"', '"*"', '"/"', '"%"', '"="', '"<"']
+    k = 0
+    for f in BIN:
+        for a in BN:
+            for b in BN:
+                lit = (k % 2 == 0); k += 1
+                x, y = (a, b) if lit else ('.a', '.b')
+                if f.startswith('"'): x, y = ('"%s"' % a, '"%s"' % b) if lit else ('(stringify .a)', '(stringify .b)')
+                cases.append(mkcase('E_b%d' % k, lib.new_cfg(select=['(%s %s %s)=x' % (f, x, y)]), ('{"a":%s,"b":%s}' % (a, b)).encode()))
+    for f in ['abs', 'round', 'floor', 'ceil', 'sqrt', 'stringify', 'as_string', '"abs"', '"round"'] + ([] if tier == 'quick' else ['"floor"', '"ceil"', 'sum', 'size', 'not']):
+        for a in BN:
+            k += 1
+            cases.append(mkcase('E_b%d' % k, lib.new_cfg(select=['(%s %s)=x' % (f, ('"%s"' % a) if f.startswith('"') else a)]), b'null'))
     # ill-typed expressions, multi-byte characters at every offset of the expression text
     ne = 500 if tier == 'quick' else 30000
     for i in range(ne):
